@@ -138,6 +138,9 @@ class PbnWriter(Writer):
                                 taken_tricks))
         # TODO: Implement optional fields.
 
+        # an empty line separates this game from the next one
+        self.writer.write('\n')
+
 
 class Scoring(Enum):
     """PBN Scoring systems.
